@@ -195,6 +195,52 @@ def ob_cli():
     return [Result('C10/cli/exit-status-and-output-file', BOUNDED_FAILED if bad else BOUNDED_OK, 'bounded:subprocess', time.time() - t0, (), det)]
 
 
+def valid_programs():
+    """systematically generated accepted programs (every declaration form x element type x length 0..17, operators, control flow) + the repository's examples"""
+    out = []
+    lit = {'int': lambda k: str(k * 7 - 3), 'byte': lambda k: str(k * 5 % 256), 'bool': lambda k: 'true' if k % 3 else 'false', 'string': lambda k: '"s%d"' % k}
+    use = {'int': 'write(%s);', 'byte': 'write(%s is int);', 'bool': 'write(%s);', 'string': 'write(%s);'}
+    for el in lit:
+        for n in range(0, 18):
+            vals = ', '.join(lit[el](k) for k in range(n))
+            idx = f'{use[el] % ("a[%d]" % (n - 1))}' if n else ''
+            out.append((f'global {el}[{n}] literal', f'{el}[] a = [{vals}];\nempty @is_you() {{ write(a.length); {idx} }}'))
+            out.append((f'global const {el}[{n}] literal', f'const {el}[] a = [{vals}];\nempty @is_you() {{ write(a.length); {idx} }}'))
+            out.append((f'local {el}[{n}] literal', f'empty @is_you() {{ {el}[] a = [{vals}]; write(a.length); {idx} }}'))
+            out.append((f'local const {el}[{n}] literal', f'empty @is_you() {{ const {el}[] a = [{vals}]; write(a.length); {idx} }}'))
+            out.append((f'global {el} a[{n}]', f'{el} a[{n}];\nempty @is_you() {{ write(a.length); }}'))
+            out.append((f'local {el} a[{n}]', f'empty @is_you(int k) {{ {el} a[{n}]; {el} b[k]; write(a.length + b.length); }}'))
+    for path in sorted(glob.glob(os.path.join(REPO, 'examples', '*.hid'))):
+        out.append(('examples/' + os.path.basename(path), open(path).read()))
+    return out
+
+
+def ob_valid():
+    """accepted programs yield complete, well-formed assembly under every option combination of a small grid (no internal exception)"""
+    from hidc.errors import CompilerError
+    from hidv.sphinx import reader, svm
+    t0 = time.time(); bad = []; n = 0
+    for name, src in valid_programs():
+        for w, unchecked in ((2, False), (3, True)):
+            n += 1
+            try:
+                lines = svm.compile_hid(src, word_size=w, unchecked=unchecked)
+                reader.parse_lines(lines)
+            except CompilerError as e:
+                bad.append({'program': name, 'options': {'word_size': w, 'unchecked': unchecked}, 'problem': f'a valid program is rejected: {e}', 'source': src[:300]})
+            except reader.AsmSyntaxError as e:
+                bad.append({'program': name, 'options': {'word_size': w, 'unchecked': unchecked}, 'problem': f'output is not well-formed assembly: {e}', 'source': src[:300]})
+            except Exception as e:
+                bad.append({'program': name, 'options': {'word_size': w, 'unchecked': unchecked}, 'problem': f'internal exception {type(e).__name__}: {e}', 'source': src[:300]})
+        if len(bad) > 8: break
+    det = {'bound': f'{n} compilations of generated declarations (4 element types x lengths 0..17 x 6 forms) and the examples directory', 'count': n,
+           'formula': 'an accepted program compiles to well-formed assembly: no internal exception, no spurious diagnostic',
+           'functions': ['hidc.codegen.generator.CodeGen.gen_lines', 'hidc.codegen.generator.CodeGen.make_global', 'hidc.codegen.generator.CodeGen.pack_bools', 'hidc.ast.program.Program.evaluate']}
+    if bad: det.update(model=bad[:5], replay={'reproduced': True, 'how': 'real pipeline on the generated program', 'observed': bad[0]})
+    return [Result('C10/accepted-programs/compile-to-well-formed-assembly', BOUNDED_FAILED if bad else BOUNDED_OK, 'bounded:corpus', time.time() - t0, (), det)]
+
+
 def tasks(tier):
-    return [task(MOD, 'ob_diagnostics', ('C10',), label='py/errors/diagnostics', cost=3),
+    return [task(MOD, 'ob_valid', ('C10',), label='py/errors/valid', cost=6),
+            task(MOD, 'ob_diagnostics', ('C10',), label='py/errors/diagnostics', cost=3),
             task(MOD, 'ob_cli', ('C10',), label='py/errors/cli', cost=5)]
